@@ -5,6 +5,7 @@ import io
 import random
 
 import model as M
+import framework as F
 import runner as R
 
 # ------------------------------------------------------------------ correspondence
@@ -80,12 +81,14 @@ def real_listing(path):
             if type(f).__name__ == "SampleFile":
                 pts = [f.start_sample, f.sustain_loop_start, f.sustain_loop_end, f.release_loop_start, f.release_loop_end]
                 samples.append([f.name, f.safe_name, f.export_name, int(f.loop_mode), [x.address for x in pts],
-                                [x.fine for x in pts], f.sampling_frequency, list(f._data_stream.sector_list)])
+                                [x.fine for x in pts], f.sampling_frequency, list(F.private(F.private(f, "_data_stream"), "sector_list"))])
             else:
                 progs.append([f.name, f.safe_name, f.export_name])
-        fat = perf._fat
+        fat = F.private(perf, "_fat")
         links = [[k, l.next, 1 if l.end else 0] for k, l in enumerate(fat.sector_links) if not (l.end and l.next == 0)]
         return ("ok", (progs, samples, [fat.size, links]))
+    except F.Unavailable:
+        raise
     except Exception as e:  # noqa
         return ("err", type(e).__name__)
     finally:
@@ -162,8 +165,14 @@ def correspond(ctx, q, case, data, idx, path=None, full=False, cuts=()):
         q.call("roland_sample_entry", [SCALED_LAYOUT, _scaled(data, cut), list(idx)],
                cmp_entries("roland_sample_entry(truncated)", dict(case, cut=cut), list(idx), ti))
     if path is not None:
-        rl = real_listing(path)
-        if rl[0] == "ok":
+        try:
+            rl = real_listing(path)
+        except F.Unavailable as e:
+            rl = None
+            ctx.note("C14: relations roland_entries_of / roland_listed_names skipped, internal name not available: %s" % e)
+        if rl is None:
+            pass
+        elif rl[0] == "ok":
             progs, samples, nl = rl[1]
 
             def then_listing(v):
